@@ -1,6 +1,8 @@
 """C12 Switching forwards only the latest inner sequence."""
 from __future__ import annotations
 
+import json
+
 from hypothesis import strategies as st
 
 from reactivex import operators as ops
@@ -25,13 +27,14 @@ RULE = (
     "the successor is subscribed. Queued same-instant ties (an inner event and an outer event at one tick) are accepted "
     "under any of the consistent orders fifo / outer-first / inner-first. In about a third of the cases (hot sources "
     "turned cold) the SAME built observable is subscribed a second time - after the first subscription terminated, or "
-    "overlapping it - and both probes are judged by the same oracle with their own subscribe tick. Non-trivial: >= 1 inner was cut short by a successor."
+    "overlapping it - and both probes are judged by the same oracle with their own subscribe tick. Non-trivial: >= 1 inner was cut short by a successor. Check det (Engine DET, vlib/det.py: line-level yield points in reactivex, cooperative locks, Subjects created after patching): outer Subject and inner Subjects A, B; before the race (one thread) the outer delivers A and A emits 100; race: the outer's thread delivers B (and then completes the outer, variant outer_c=thread) || A's own thread makes 1-2 calls on A (C / N,C / E / N); after the race (one thread) B emits 200, the outer completes (variant outer_c=post), B emits 201, B completes; forms switch_latest (after map), switch_map, switch_map_indexed, flat_map_latest; either thread scheduled first; EVERY schedule with <= 1 preemption is run (quick: all four A programs for switch_latest, program C for the other forms; thorough: all programs for all forms). Oracle = only what the statement fixes under every placement of A's racing calls relative to B's arrival: output = 100, a PREFIX of A's racing elements, 200, 201, then exactly one completion that does not precede B's completion (B is the latest inner whatever the placement; the outer has completed by then); alternatively, when A errors in the race, 100 + A's elements before it + that error and nothing else (error placed before B's arrival); no deadlock, no escaped exception. Non-trivial there: the two threads overlapped and >= 2 distinct outputs were observed over the schedules. The programs with A's thread first and a completion among A's calls exposed the genuine defect fixed in /repo d810cc3 (inner completion decided outside source.lock)."
 )
 ASSUMPTIONS = [
     "a Subject-backed inner (kind subject) delivers its terminal at once to a subscriber that arrives after, or during the dispatch of, that terminal (documented Subject behaviour)",
     "inner sources are conforming; 'leaky' inners ignore disposal for emission (they log the unsubscribe) and bypass AutoDetachObserver",
     "subscriptions opened after the output already terminated (a synchronous outer still unwinding) are not judged here (C02/C03)",
     "mapper functions are total and pure (C09 covers raising mappers)",
+    "det: each source makes its own calls serially (observer contract); only the outer and ONE inner race (two threads, <= 1 preemption); whether downstream calls overlap is not judged here (C43's subject); CPython GIL, line-level atomicity as stated in vlib/det.py",
 ]
 
 FORMS = ["switch_latest", "switch_map", "switch_map_identity", "switch_map_indexed", "flat_map_latest"]
@@ -219,7 +222,144 @@ def _cases(draw, big=False):
     return c
 
 
+# ---- Engine DET: outer and current inner delivering from two different threads -------------------------------------
+_DET_FORMS = ["switch_latest", "switch_map", "switch_map_indexed", "flat_map_latest"]
+
+
+def _det_build(form, outer, inners):
+    if form == "switch_latest":
+        return outer.pipe(ops.map(lambda x: inners[x]), ops.switch_latest())
+    if form == "switch_map":
+        return outer.pipe(ops.switch_map(lambda x: inners[x]))
+    if form == "switch_map_indexed":
+        return outer.pipe(ops.switch_map_indexed(lambda x, i: inners[x]))
+    if form == "flat_map_latest":
+        return outer.pipe(ops.flat_map_latest(lambda x: inners[x]))
+    raise HarnessError(form)
+
+
+def _det_run(case):
+    """case = {"form", "a": ["N"|"C"|"E", ...] calls made on inner A by its own thread, "outer_c": "thread"|"post",
+    "first": "outer"|"inner", "K"}.  Before the race (one thread): subscribe, outer delivers A, A emits 100.  Race: the
+    outer thread delivers B (then completes the outer if outer_c == "thread") || A's thread makes the calls in "a".
+    After the race (one thread again): B emits 200, the outer completes (if outer_c == "post"), B emits 201, B completes."""
+    from reactivex.subject import Subject
+
+    from vlib import det
+
+    form, a_ops, outer_c, K = case["form"], case["a"], case["outer_c"], case["K"]
+    a_vals = [101 + i for i, o in enumerate(a_ops) if o == "N"]
+    kw = dict(max_steps=6000, reuse_threads=True, wall_timeout=30.0)
+
+    def factory():
+        det.fresh_thread_state()
+        outer, a, b = Subject(), Subject(), Subject()  # created while patched: cooperative locks
+        got = []
+        _det_build(form, outer, [a, b]).subscribe(lambda v: got.append(["N", v]), lambda e: got.append(["E", str(e)]), lambda: got.append(["C"]))
+        outer.on_next(0)
+        a.on_next(100)
+
+        def t_outer():
+            outer.on_next(1)
+            if outer_c == "thread":
+                outer.on_completed()
+
+        def t_inner():
+            for i, o in enumerate(a_ops):
+                if o == "N":
+                    a.on_next(101 + i)
+                elif o == "C":
+                    a.on_completed()
+                else:
+                    a.on_error(RuntimeError("ea"))
+
+        return ([t_outer, t_inner] if case["first"] == "outer" else [t_inner, t_outer]), {"outer": outer, "b": b, "got": got}
+
+    def finish(ctx):
+        b, got = ctx["b"], ctx["got"]
+        marks = {}
+        b.on_next(200)
+        if outer_c == "post":
+            ctx["outer"].on_completed()
+        marks["before_201"] = len(got)
+        b.on_next(201)
+        marks["before_b_completed"] = len(got)
+        b.on_completed()
+        return marks
+
+    def judge(res, ctx):
+        if res.deadlock:
+            return "deadlock", f"{res.deadlock}"
+        if res.exceptions:
+            return "exception", f"{res.exceptions}"
+        got = ctx["got"]
+        raced = list(got)
+        marks = finish(ctx)
+        # A's error may be linearized before B's arrival: then it is the current inner's error and ends the output
+        if "E" in a_ops:
+            k = a_ops.index("E")
+            if got == [["N", 100]] + [["N", v] for v in a_vals if v < 101 + k] + [["E", "ea"]]:
+                return None
+        # otherwise: a prefix of A's racing elements (those placed before B's arrival), then everything B emits, and
+        # completion exactly at B's completion (the outer has completed by then and B is the latest inner)
+        if ["C"] in got and got.index(["C"]) < marks["before_b_completed"]:
+            return "completed-before-latest-inner-completed", f"output completed while the latest inner was still running: {got} (during the race: {raced})"
+        if any(e[0] == "E" for e in got):
+            return "stale-or-unexpected-error", f"{got}"
+        vals = [e[1] for e in got if e[0] == "N"]
+        bs = [v for v in vals if v >= 200]
+        if bs != [200, 201]:
+            return "latest-inner-element-lost", f"latest inner emitted 200, 201; output {got}"
+        as_ = vals[: len(vals) - 2]
+        if vals[-2:] != [200, 201] or as_ != [100] + a_vals[: len(as_) - 1]:
+            return "elements", f"expected 100, a prefix of {a_vals}, 200, 201; output {got}"
+        if got[-1] != ["C"] or got.count(["C"]) != 1:
+            return "missing-completion", f"outer and latest inner completed; output {got}"
+        return None
+
+    runs = overlap = incomplete = 0
+    seen = set()
+    with det.patched():
+        for s, res, ctx in det.explore(factory, K=K, **kw):
+            if runs == 0:
+                res_b, _ = det.run_checked(factory, s, **kw)
+                if res_b.fingerprint() != res.fingerprint():
+                    raise HarnessError("C12 det: base run not deterministic")
+            runs += 1
+            overlap += res.overlapped()
+            if not res.complete and not res.deadlock:
+                incomplete += 1
+                continue
+            bad = judge(res, ctx)
+            if bad is not None:
+                res2, ctx2 = det.run_checked(factory, s, **kw)
+                bad2 = judge(res2, ctx2)
+                if bad2 is None or bad2[0] != bad[0]:
+                    raise HarnessError(f"C12 det: verdict not reproducible for schedule {s}: {bad} vs {bad2}")
+                return FAIL(f"race:{bad[0]}|{form}", f"{bad[1]}; schedule={s}; {res2.describe()}; case={case}", classes=["det"])
+            seen.add(json.dumps(ctx["got"]))
+    if incomplete:
+        return SKIP("budget")
+    cl = ["det", "det:" + form, f"det:K{K}", "det:outer-completes-" + outer_c, f"det:outcomes:{min(len(seen), 3)}"] + [f"det:runs>={n}" for n in (10, 100) if runs >= n]
+    return OK(overlap > 0 and len(seen) >= 2, cl)
+
+
+_DET_A = [["C"], ["N", "C"], ["E"], ["N"]]
+# The programs with A's thread scheduled first and a completion among A's calls exposed a genuine defect of the operator
+# (inner on_completed did check-then-act on latest/has_latest outside source.lock: completion while B was running),
+# fixed in /repo d810cc3; mutants/C12-inner-completion-check-outside-lock.diff reverts that fix.
+
+
+def _det_cases(tier):
+    for form in _DET_FORMS:
+        for a in _DET_A if tier == "thorough" or form == "switch_latest" else _DET_A[:1]:
+            for outer_c in ("thread", "post"):
+                for first in ("outer", "inner"):
+                    yield {"form": form, "a": a, "outer_c": outer_c, "first": first, "K": 1}
+
+
 def checks(tier):
     return [
         Check("switch", _run, strategy=_cases(tier == "thorough"), examples={"quick": 3200, "thorough": 16 * 30000}, shards={"quick": 4, "thorough": 16}),
+        Check("det", _det_run, cases=_det_cases, shards={"quick": 4, "thorough": 8}, exhaustive=True),
     ]
